@@ -47,6 +47,11 @@ def start_mesh(name):
         f = _TET_F.copy()
         f[2] = [4, 2, 3]
         return trimesh.Trimesh(v, f, process=False)
+    if name.startswith("ico_hole_"):
+        # 79 faces (more than the 20 rows the normals setter looks at) with one triangular hole
+        ico = trimesh.creation.icosphere(subdivisions=1)
+        k = int(name.rsplit("_", 1)[1])
+        return trimesh.Trimesh(np.array(ico.vertices) * 2.0, np.delete(np.array(ico.faces), k, axis=0), process=False)
     if name == "tet_colors":
         m = trimesh.Trimesh(_TET_V.copy(), _TET_F.copy(), process=False)
         m.visual.face_colors = np.array([[255, 0, 0, 255], [0, 255, 0, 255], [0, 0, 255, 255], [9, 9, 9, 255]], dtype=np.uint8)
@@ -651,6 +656,8 @@ def main(run):
             ("d1_r2_box", System(["box"], cheap + ["ALL"], 1, 2, both_orders=False), 3, None),
             ("d1_r1_all_meshes", System(["tet", "two_tets", "open_box", "tet_dup", "tet_colors"], cheap + ["ALL"], 1, 1, both_orders=False), 2, None),
             ("d2_r1_allreads", System(["tet", "box", "tet_dup"], ["ALL", "face_normals", "vertex_normals", "edges"], 2, 1, both_orders=True), 4, None),
+            # a larger mesh with a hole (either orientation of the patch triangle): normals read, then one mutator
+            ("d1_r1_ico_hole", System(["ico_hole_0", "ico_hole_2"], ["ALL", "face_normals", "vertex_normals"], 1, 1, both_orders=False), 2, None),
         ]
     else:
         few = ["ALL", "face_normals", "vertex_normals", "edges_unique", "face_adjacency", "triangles", "center_mass", "vertex_faces"]
@@ -659,6 +666,7 @@ def main(run):
             ("d2_r1", System(["tet", "box", "tet_dup"], few, 2, 1), 4, None),
             # three mutators: the frontier is capped (reported as capped, not as exhaustive)
             ("d3_r1_few", System(["tet", "tet_dup"], ["ALL", "face_normals"], 3, 1), 6, 60000),
+            ("d1_r1_ico_hole", System(["ico_hole_0", "ico_hole_2", "ico_hole_33"], ["ALL", "face_normals", "vertex_normals", "edges", "face_adjacency"], 1, 1), 2, None),
         ]
     total = {"states": 0, "transitions": 0}
     parts = {}
